@@ -226,7 +226,7 @@ func replaceIfNaturalLanguageValues(old, new NaturalLanguageValues) NaturalLangu
 }
 
 func replaceIfSource(to, from Source) Source {
-	if from.MediaType != to.MediaType {
+	if len(from.MediaType) > 0 && from.MediaType != to.MediaType {
 		return from
 	}
 	to.Content = replaceIfNaturalLanguageValues(to.Content, from.Content)
